@@ -104,6 +104,7 @@ def call_module(run, path, args, kwargs, node):
         u = z3.Real(fresh_name('u'))
         run.pc += [u >= 0, u < 1]
         run.events.append({'kind': 'draw', 'prim': 'random.random', 'value': u, 'line': run.cur_line})
+        run.bump('random.random')
         return SNum(u)
     if name == 'random.randrange':
         if len(args) != 1 or kwargs:
@@ -113,6 +114,7 @@ def call_module(run, path, args, kwargs, node):
         r = z3.Int(fresh_name('rr'))
         run.pc += [r >= 0, r < n.t]
         run.events.append({'kind': 'draw', 'prim': 'random.randrange', 'arg': n.t, 'value': r, 'line': run.cur_line})
+        run.bump('random.randrange')
         return SNum(r)
     if name == 'random.randint':
         a, b = args
@@ -121,6 +123,7 @@ def call_module(run, path, args, kwargs, node):
         run.pc += [r >= a.t, r <= b.t]
         run.events.append({'kind': 'draw', 'prim': 'random.randint', 'arg': (a.t, b.t), 'value': r,
                            'line': run.cur_line})
+        run.bump('random.randint')
         return SNum(r)
     if name in ('numpy.exp', 'numpy.log', 'numpy.floor'):
         f = {'numpy.exp': EXP, 'numpy.log': LOG, 'numpy.floor': FLOOR}[name]
@@ -130,6 +133,7 @@ def call_module(run, path, args, kwargs, node):
     if name == 'numpy.random.normal':
         r = z3.Real(fresh_name('nrm'))
         run.events.append({'kind': 'draw', 'prim': 'np.random.normal', 'value': r, 'line': run.cur_line})
+        run.bump('np.random.normal')
         return SNum(r)
     if name == 'numpy.mean':
         lst = args[0]
@@ -226,6 +230,7 @@ def np_permutation(run, x):
                             [STR_OF(k)]))
     run.events.append({'kind': 'draw', 'prim': 'np.random.permutation', 'arg': x.get(), 'value': res.get(),
                        'sigma': sig, 'sigma_inv': inv, 'line': run.cur_line})
+    run.bump('np.random.permutation')
     run.trusted.add('library contract: np.random.permutation = permutation of the NumPy-coerced elements')
     return res
 
@@ -666,6 +671,7 @@ def call_callback(run, f, args, kwargs, node):
         r = loss_apply(f.t, pack(y, TVal), pred.get())
         run.events.append({'kind': 'loss', 'y': pack(y, TVal), 'pred': pred.get(), 'value': r, 'line': run.cur_line,
                            'count': _qcount(run)})
+        run.bump('loss', _qcount(run))
         return SNum(r)
     if role == 'model':
         if kwargs or len(args) != 1:
@@ -679,6 +685,7 @@ def call_callback(run, f, args, kwargs, node):
             r = model_apply(f.t, x.get())
             run.events.append({'kind': 'model', 'x': x.get(), 'value': r, 'line': run.cur_line,
                                'count': _qcount(run)})
+            run.bump('model', _qcount(run))
             return SDict(PredT, r)
         if isinstance(x, SList) and x.typ.e == InstT:
             lt = TList(PredT)
@@ -689,6 +696,7 @@ def call_callback(run, f, args, kwargs, node):
                                  [res.arr[i]]))
             run.events.append({'kind': 'model_batch', 'xs': x.get(), 'value': res.get(), 'line': run.cur_line,
                                'count': x.n})
+            run.bump('model', x.n)
             run.trusted.add('assumption: the model applied to a list returns the list of its single-instance outputs')
             return res
         raise sx.Unsupported("model called with " + repr(x))
